@@ -79,4 +79,19 @@ PROPS = {
         "text": "Every byte written under /db/blocks on any node, every update-notification block, everything a key-less node writes under any prefix and every reply it gives is searched for the unique plaintext patterns of encrypted fields (CBOR and text forms); key bytes must only be written under /db/enc; key-holding nodes are checked against the reference model (read back exactly).",
         "note": "Small integers cannot serve as byte patterns and are not searched; strings and float64 values are. The simulated transport payload of E2 is not part of this check yet.",
     },
+    "C05": {
+        "engine": "E3", "level": "fault_enumeration", "design_ref": "DESIGN.md §5 C05",
+        "technique": "deterministic simulation with storage fault injection: every storage-operation site of a generated API call fails once (all-or-nothing oracle vs. a fault-free twin)",
+        "rule": ("for a generated pre-state (0-8 operations, collection with/without secondary, unique, composite indexes, branchable, relation) and one API call "
+                 "(22 kinds, round-robin over seeds), the fault-free run on a forked twin yields the list of storage sites (kind, key, occurrence); each distinct site "
+                 "fails once (quick tier: at most 120 sites per call, seeded subset). distinct_nontrivial = distinct (call kind, site kind, key class) triples in which the fault actually fired"),
+        "real_vs_stub": ("real: internal/db API incl. GraphQL mutations, collection API, index/schema DDL, import, merge; badger in-memory under SimStore; "
+                         "stub: storage errors injected at the corekv seam (read/iterator/write/disk-full/commit error/commit conflict), disk = committed-batch log; not run: net, HTTP/CLI, document ACP"),
+        "assumptions": ASSUME_COMMON + ["a failing Commit never reaches the base store (a store that reports failure although it committed is not injected)"],
+        "probes": ["fault_read_error", "fault_iterator_error", "fault_write_error", "fault_disk_full", "fault_commit_error", "fault_commit_conflict", "success_despite_fault", "fault_free_call_failed"],
+        "quick": {"count": 6, "budget_s": 80, "workers": 16},
+        "thorough": {"count": 100000, "budget_s": 1700, "workers": 16},
+        "text": "Per call, the site enumeration is complete in the thorough tier (every distinct storage operation of the fault-free execution fails once); over pre-states and call arguments it is seeded sampling. Oracle: error => no new durable batch, unchanged logical dump (documents, commits, heads, index-backed reads, descriptions, introspection), no update notification, and the retry succeeds; success => state and notifications equal the fault-free twin's.",
+        "note": "exhaustive is reported false: complete only per call in the thorough tier, sampled in the quick tier and over inputs. Two handle disciplines (fresh / long-lived collection handle). Document ACP not enabled.",
+    },
 }
